@@ -202,17 +202,21 @@ func (o qop) String() string { return fmt.Sprintf("+%dns:%dx%s", o.Dt, o.N, hist
 // 5 addresses in 3 groups: A={0,1 (mapped spelling)}, B={2,3}, C={4}; quick tier uses 0,1,2
 var histAddrs = []string{"10.1.2.3", "::ffff:10.1.2.200", "2001:db8:0:7::1", "2001:db8:0:7:ffff::2", "10.1.3.3"}
 
-
 type qcfg struct {
 	Name  string
 	EPS   float32
 	Burst int
+	Cap   int // maxEntries of the quota; 0 = 64 (far above the number of groups)
 }
 
+// capCfg: as many LRU entries as there are groups in the history (3 addresses in 2 groups): no
+// bucket may ever be evicted, so every group keeps its budget exactly as with a roomy cache.
+var capCfg = qcfg{Name: "tight-0.5ps-burst1-maxEntries=groups", EPS: 0.5, Burst: 1, Cap: 2}
+
 var qcfgs = []qcfg{
-	{"logins-0.4ps-burst3", 0.4, 3},
-	{"connections-5ps-burst10", 5, 10},
-	{"tight-0.5ps-burst1", 0.5, 1},
+	{"logins-0.4ps-burst3", 0.4, 3, 0},
+	{"connections-5ps-burst10", 5, 10, 0},
+	{"tight-0.5ps-burst1", 0.5, 1, 0},
 }
 
 func (c qcfg) ops(addrs []int) []qop {
@@ -271,7 +275,11 @@ func boundViolation(ts []int64, eps float32, burst int) (bool, string) {
 
 func runQuota(t *testing.T, c qcfg, h []qop) (out bfs.Outcome) {
 	synctest.Test(t, func(t *testing.T) {
-		q := NewQuota(c.EPS, c.Burst, 64)
+		capacity := c.Cap
+		if capacity == 0 {
+			capacity = 64
+		}
+		q := NewQuota(c.EPS, c.Burst, capacity)
 		adm := map[string][]int64{}
 		seen := map[string]bool{}
 		for i, o := range h {
@@ -353,7 +361,7 @@ func TestVerif(t *testing.T) {
 				return
 			}
 			r.Eval(1)
-			for _, c := range qcfgs {
+			for _, c := range append(append([]qcfg{}, qcfgs...), capCfg) {
 				if "quota-"+c.Name == strings.TrimSuffix(rp.Scenario, "-5addrs") {
 					if out := runQuota(t, c, rp.History); out.FailKey != "" {
 						r.Violation(rp.Scenario+"/"+out.FailKey, out.FailDesc, bfs.ReplayData[qop]{Scenario: rp.Scenario, History: rp.History})
@@ -373,6 +381,16 @@ func TestVerif(t *testing.T) {
 		plans := []plan{{4, []int{0, 1, 2}, ""}}
 		if r.Thorough() {
 			plans = []plan{{5, []int{0, 1, 2}, ""}, {3, []int{0, 1, 2, 3, 4}, "-5addrs"}}
+		}
+		{ // the cache exactly as large as the number of groups
+			c, depth := capCfg, 3
+			if r.Thorough() {
+				depth = 5
+			}
+			res := bfs.Explore(bfs.Config[qop]{Name: c.Name, Ops: c.ops([]int{0, 1, 2}), Depth: depth,
+				Shard: r.Shard, NShards: r.NShards, Deadline: r.DeadlineTime(),
+				Run: func(h []qop) bfs.Outcome { return runQuota(t, c, h) }})
+			res.Merge(r, "quota-"+c.Name)
 		}
 		for _, pl := range plans {
 			for _, c := range qcfgs {
